@@ -10,6 +10,7 @@
   outside [data, data+length) or needs an aligned buffer."
 -/
 import IgrisModel.C17.Lemmas
+import IgrisModel.C17.RefLemmas
 namespace Igris.C17
 open Igris.Proto
 
@@ -88,6 +89,98 @@ theorem crc32_chain_witness :
 /-- historical: the routine as it was before `fix: igris_crc32 reads the tail
 byte-wise` faults on a 1-byte buffer (whole-word tail load) -/
 theorem crc32Orig_overread_witness : crc32Orig [0#8] 1 0#32 = none := by decide
+
+/-! ## each routine equals an independent bit-at-a-time reference
+(`Ref.lean`: a `w`-bit shift register fed one message bit at a time; all seeds,
+all byte strings) -/
+
+/-- `igris_strmcrc8` = CRC-8 poly 0x31 (x^8+x^5+x^4+1), MSB first, no reflection -/
+theorem strmcrc8_eq_ref (seed : BitVec 8) (data : List Byte) :
+    strmcrc8 seed data = refMsb 8 0x31#8 seed data := by
+  rw [refMsb_eq_foldl, strmcrc8]
+  induction data generalizing seed with
+  | nil => rfl
+  | cons b bs ih => simp only [List.foldl_cons, strmStep_eq_ref, ih]
+
+/-- `igris_crc8` = Dallas/Maxim CRC-8, reflected poly 0x8C, LSB first -/
+theorem crc8_eq_ref (data : List Byte) (seed : BitVec 8) :
+    crc8 data seed = refLsb 0x8C#8 seed data := by
+  rw [refLsb_eq_foldl, crc8]
+  induction data generalizing seed with
+  | nil => rfl
+  | cons b bs ih => simp only [List.foldl_cons, dowStep_eq_ref, ih]
+
+/-- hence also the table-driven routine -/
+theorem crc8Table_eq_ref (data : List Byte) (seed : BitVec 8) :
+    crc8Table data seed = refLsb 0x8C#8 seed data := by
+  rw [crc8_table_eq_serial, crc8_eq_ref]
+
+/-- `igris_crc16` = CRC-16/CCITT poly 0x1021, MSB first (XMODEM for seed 0) -/
+theorem crc16_eq_ref (data : List Byte) (seed : BitVec 16) :
+    crc16 data seed = refMsb 16 0x1021#16 seed data := by
+  rw [refMsb_eq_foldl, crc16]
+  induction data generalizing seed with
+  | nil => rfl
+  | cons b bs ih => simp only [List.foldl_cons, crc16Step_eq_ref, ih]
+
+/-- `igris_mmc_crc7` as written: an 8-bit register with poly `0x89 << 1`
+(truncated: 0x12), result shifted right by one -/
+theorem mmcCrc7_eq_ref8 (data : List Byte) :
+    mmcCrc7 data = refMsb 8 0x12#8 0#8 data >>> 1 := by
+  rw [refMsb_eq_foldl, mmcCrc7]
+  congr 1
+  generalize (0#8 : BitVec 8) = seed
+  induction data generalizing seed with
+  | nil => rfl
+  | cons b bs ih => simp only [List.foldl_cons, mmcStep_eq_ref, ih]
+
+/-- … which is the genuine 7-bit CRC-7/MMC (poly x^7+x^3+1 = 0x09, seed 0,
+MSB first) of the message, zero-extended to the returned `uint8_t` -/
+theorem mmcCrc7_eq_crc7 (data : List Byte) :
+    mmcCrc7 data = (refMsb 7 0x09#7 0#7 data).zeroExtend 8 := by
+  rw [mmcCrc7_eq_ref8]
+  have h := crc7_fold (data.flatMap bitsMsbFirst) 0#7
+  have z : (0#7 : BitVec 7).zeroExtend 8 <<< 1 = 0#8 := by decide
+  rw [z] at h
+  rw [refMsb, h, crc7_unshift]; rfl
+
+/-- `igris_crc32` (value-level `crc32Words`, see `crc32_reads_in_range`) =
+CRC-32 poly 0x04C11DB7, MSB first, no reflection, no final xor, over the bytes
+in STM32 word order (`crc32BitOrder`: each little-endian word most significant
+byte first, the tail zero-padded to a word) -/
+theorem crc32Words_eq_ref (data : List Byte) (seed : BitVec 32) :
+    crc32Words data seed = refMsb 32 0x04C11DB7#32 seed (crc32BitOrder data) := by
+  induction hn : data.length using Nat.strongRecOn generalizing data seed with
+  | _ n ih =>
+    match data with
+    | [] => simp [crc32Words, crc32BitOrder, refMsb]
+    | [a] =>
+      simp only [crc32Words, crc32BitOrder]
+      rw [refMsb_word, ← wordStep_eq_ref]; rfl
+    | [a, b] =>
+      simp only [crc32Words, crc32BitOrder]
+      rw [refMsb_word, ← wordStep_eq_ref]; rfl
+    | [a, b, c] =>
+      simp only [crc32Words, crc32BitOrder]
+      rw [refMsb_word, ← wordStep_eq_ref]; rfl
+    | b0 :: b1 :: b2 :: b3 :: rest =>
+      simp only [crc32Words_four, crc32BitOrder]
+      rw [refMsb_word, ← wordStep_eq_ref]
+      subst hn
+      exact ih rest.length (by simp only [List.length_cons]; omega) rest _ rfl
+
+/-- the routine itself on an exactly sized buffer -/
+theorem crc32_eq_ref (data : List Byte) (seed : BitVec 32) :
+    crc32 data data.length seed = some (refMsb 32 0x04C11DB7#32 seed (crc32BitOrder data)) := by
+  rw [crc32_exact_buffer, crc32Words_eq_ref]
+
+/-- sanity anchors for the references themselves (catalogue check values of
+"123456789"): CRC-8/MAXIM-DOW = 0xA1, CRC-16/XMODEM = 0x31C3, CRC-7/MMC = 0x75 -/
+theorem ref_check_values :
+    refLsb 0x8C#8 0#8 [0x31, 0x32, 0x33, 0x34, 0x35, 0x36, 0x37, 0x38, 0x39] = 0xA1#8 ∧
+    refMsb 16 0x1021#16 0#16 [0x31, 0x32, 0x33, 0x34, 0x35, 0x36, 0x37, 0x38, 0x39] = 0x31C3#16 ∧
+    refMsb 7 0x09#7 0#7 [0x31, 0x32, 0x33, 0x34, 0x35, 0x36, 0x37, 0x38, 0x39] = 0x75#7 := by
+  decide +kernel
 
 -- non-vacuity of `crc32_chain_partial`'s hypothesis
 example : ([1#8, 2#8, 3#8, 4#8] : List Byte).length % 4 = 0 := by decide
